@@ -43,6 +43,53 @@ def runOps {σ} (I : Iface σ) (s : σ) : List Op → σ × Bool
     | (s', .readOnly _) => (s', true)
     | (s', _) => runOps I s' t
 
+/-! ### the variable writes of `cd` and `getopts` (third pass of wave 3) -/
+
+/-- `cd/assign.rs` `set_variable`: `get_or_create_variable(name, Global)`, `assign`; a refusal is
+    reported (`handle_assign_error`, exit status `EXIT_STATUS_ASSIGN_ERROR`) and the variable is left
+    alone; otherwise `export(true)` -/
+def cdSetVariable {σ} (I : Iface σ) (s : σ) (p : Name × String) : σ × Bool :=
+  match I.step s (.assign p.1 .global (.scalar p.2) none) with
+  | (s1, .readOnly _) => (s1, true)
+  | (s1, _) => ((I.step s1 (.export p.1 .global true)).1, false)
+
+/-- the names `cd` writes, in the order `cd.rs` `main` writes them: `set_oldpwd(pwd)` then
+    `set_pwd(new_pwd)` -/
+def cdOldpwdName : Name := "OLDPWD"
+def cdPwdName : Name := "PWD"
+
+/-- `cd.rs` `main` after the `chdir`: `pwd = get_scalar(PWD).unwrap_or_default()` (read before anything
+    is written), `set_oldpwd(pwd)`, `set_pwd(new_pwd)` — both are always attempted,
+    `result1.max(result2).max(result3)`: the state and the number of refused assignments -/
+def cdAssign {σ} (I : Iface σ) (s : σ) (newPwd : String) : σ × Nat :=
+  let pwd := (scalarOf (I.get s cdPwdName)).getD ""
+  foldErrors (cdSetVariable I) [(cdOldpwdName, pwd), (cdPwdName, newPwd)] (s, 0)
+
+/-- `EXIT_STATUS_ASSIGN_ERROR` of cd.rs (extracted: `cdAssignErrorStatus`) -/
+def cdStatus (errors : Nat) : Nat := if errors = 0 then 0 else 1
+
+/-- `getopts/report.rs` `Result::report`, the part that writes variables: the option variable, then
+    `OPTARG` (assigned when the option has an argument, unset otherwise), then `OPTIND`; every step
+    ends in `?`, so the first refusal stops the rest (`runOps`).  All at `Global` scope. -/
+def getoptsReportOps (name : Name) (value : String) (optarg : Option String) (optind : String) : List Op :=
+  [.assign name .global (.scalar value) none,
+   (match optarg with
+    | some v => .assign "OPTARG" .global (.scalar v) none
+    | none => .unset "OPTARG" .global),
+   .assign "OPTIND" .global (.scalar optind) none]
+
+/-- the generated tables of cd.rs / cd/assign.rs / getopts/report.rs say what `cdAssign`, `cdStatus` and
+    `getoptsReportOps` do: names, order, scope, the status of a refused assignment -/
+def cdGetoptsTablesOk : Bool :=
+  Generated.VariableTables.cdWrites == [(cdOldpwdName, scopeName .global), (cdPwdName, scopeName .global)] &&
+  cdStatus 1 == Generated.VariableTables.cdAssignErrorStatus && cdStatus 0 == 0 &&
+  Generated.VariableTables.getoptsWrites ==
+    ((getoptsReportOps "<name>" "a" (some "v") "2").take 2 ++ (getoptsReportOps "<name>" "a" none "2").drop 1).map
+      (fun op => match op with
+        | .assign n sc _ _ => (n, "assign", scopeName sc)
+        | .unset n sc => (n, "unset", scopeName sc)
+        | _ => ("?", "?", "?"))
+
 /-- value token: `@a.b` is the array `(a b)`, `@` the empty array, anything else a scalar -/
 def parseVal (v : String) : Value :=
   match v.toList with
